@@ -485,6 +485,61 @@ def _mutated_between(body, vo, from_bb, to_bb):
     return True
 
 
+def d_len_eq(site):
+    """v[k] (k constant) dominated by the true edge of `v.len() == n`, n > k, for a *local* Vec
+    that is not mutably borrowed / reassigned between the test and the index"""
+    body = site.body
+    c = site.call
+    if site.cls != 'index' or c is None or 'Vec<T, A> as std::ops::Index' not in (c.rdef or ''):
+        return None
+    k = op_const_int(c.args[1])
+    if k is None:
+        io = single_origin(trace_operand(body, c.args[1]))
+        k = io.data.get('int') if io is not None and io.kind == 'const' else None
+    if k is None:
+        return None
+    vroot = root_place(body, c.args[0])
+    if vroot is None:
+        return None
+    for b in sorted(body.live_blocks):
+        t = body.blocks[b]['term']
+        if t['k'] != 'switch':
+            continue
+        l = op_local(t['discr'])
+        defs = defuse(body).defs.get(l, []) if l is not None else []
+        if len(defs) != 1 or defs[0][2] != 'assign' or defs[0][3]['k'] != 'binop' or defs[0][3]['op'] != 'Eq':
+            continue
+        rv = defs[0][3]
+        n = op_const_int(rv['b'])
+        a = single_origin(trace_operand(body, rv['a']))
+        if n is None or a is None or a.kind != 'callres' or a.data.callee != 'std::vec::Vec::<T, A>::len' or n <= k:
+            continue
+        lroot = root_place(body, a.data.args[0])
+        if lroot != vroot:
+            continue
+        for v, tb in switch_edges(body, b):
+            if v == 'otherwise' and [x for x, _ in t['targets']] == [0] and edge_dominates(body, b, tb, site.bb):
+                # no &mut borrow / redefinition of the Vec between
+                fwd = body.reachable_from(tb)
+                back = set()
+                st = [site.bb]
+                while st:
+                    x = st.pop()
+                    if x in back:
+                        continue
+                    back.add(x)
+                    st.extend(body.pred[x])
+                between = fwd & back
+                mutated = False
+                for x in between:
+                    for s_ in body.blocks[x]['stmts']:
+                        if s_['k'] == 'assign' and ((s_['rv']['k'] == 'ref' and s_['rv'].get('mut') and s_['rv']['pl']['l'] == vroot[0]) or (s_['pl']['l'] == vroot[0])):
+                            mutated = True
+                if not mutated:
+                    return ('D-range', 'index %d after len(v) == %d on the same local Vec, not mutated in between' % (k, n))
+    return None
+
+
 VETTED = {r[0]: (r[1], r[2]) for r in _load_tsv('vetted_sites.tsv')}
 
 
@@ -522,7 +577,7 @@ def d_vetted(site):
     return None
 
 
-DISCHARGERS = [d_guard, d_total, d_lock, d_range, d_vetted]
+DISCHARGERS = [d_guard, d_total, d_lock, d_range, d_len_eq, d_vetted]
 
 
 def evaluate(bodies, extra_dischargers=(), rule='PANIC'):
